@@ -27,7 +27,7 @@ theorem pages_filterMap (f : OutEv → Option Str) (hl : ∀ l, f (.line l) = so
     intro xs
     induction xs with
     | nil => rfl
-    | cons x xs ih => simp [List.filterMap_cons, hl, ih]
+    | cons x xs ih => simp [hl, ih]
   induction ls using pages.induct (real := real) with
   | case1 ls h => rw [pages_of_short real ls h, hmap]
   | case2 ls h ih =>
@@ -69,7 +69,7 @@ theorem pages_ask_iff (real : Nat) (hr : 1 ≤ real) (ls : List Str) :
         rw [ih, Nat.add_mod_right]
       · have : i = real := by omega
         subst this
-        simp [Nat.mod_eq_of_lt]
+        simp
 
 theorem getLast?_map_line_ne_ask (xs : List Str) : (xs.map OutEv.line).getLast? ≠ some .ask := by
   rw [List.getLast?_map]
@@ -87,14 +87,17 @@ theorem pages_getLast?_ne_ask (real : Nat) (ls : List Str) : (pages real ls).get
       have := congrArg List.length hd
       simp only [List.length_drop, List.length_nil] at this
       omega
-    rw [List.getLast?_append_of_ne_nil _ (by simp), List.getLast?_cons_of_ne_nil hne]
-    exact ih
+    obtain ⟨a, t, hat⟩ := List.exists_cons_of_ne_nil hne
+    rw [hat] at ih
+    rw [hat, List.getLast?_append, List.getLast?_cons_cons]
+    rw [List.getLast?_cons] at ih ⊢
+    simpa using ih
 
 theorem filter_ask_map_line (xs : List Str) :
     ((xs.map OutEv.line).filter fun e => e == .ask) = [] := by
   induction xs with
   | nil => rfl
-  | cons x xs ih => simp [List.filter_cons, ih]
+  | cons x xs ih => simp [ih]
 
 /-- the number of requests -/
 theorem pages_count_ask (real : Nat) (hr : 1 ≤ real) (ls : List Str) :
@@ -108,5 +111,338 @@ theorem pages_count_ask (real : Nat) (hr : 1 ≤ real) (ls : List Str) :
       List.filter_cons_of_pos (by decide), List.length_cons, ih, List.length_drop]
     have : ls.length - 1 = (ls.length - real - 1) + real := by omega
     rw [this, Nat.add_div_right _ (by omega)]
+
+/-- `_print_widget` is the page loop at `real = h - 2` whenever it is defined -/
+theorem printWidget_eq_some (ls : List Str) (h : Nat) (evs : List OutEv)
+    (he : printWidget ls h = some evs) : evs = pages (h - 2) ls := by
+  unfold printWidget at he
+  split at he
+  · rename_i hl; subst hl
+    rw [pages_of_short _ _ (by simp)]
+    simpa using he.symm
+  · split at he
+    · simp at he
+    · simpa using he.symm
+
+theorem printWidget_of_le (ls : List Str) (h : Nat) (hh : 3 ≤ h) :
+    printWidget ls h = some (pages (h - 2) ls) := by
+  unfold printWidget
+  split
+  · rename_i hl; subst hl
+    rw [pages_of_short _ _ (by simp)]; rfl
+  · rw [if_neg (by omega)]
+
+/-! ### the prompt -/
+
+theorem find?_setOpt (opts : List (Str × Str)) (k d k' : Str) :
+    ((setOpt opts k d).find? fun kd => kd.1 = k').map (·.2) =
+      if k' = k then some d else (opts.find? fun kd => kd.1 = k').map (·.2) := by
+  induction opts with
+  | nil =>
+    by_cases hk : k' = k
+    · simp [setOpt, hk]
+    · have : ¬ k = k' := fun h => hk h.symm
+      simp [setOpt, hk, this]
+  | cons x rest ih =>
+    obtain ⟨k0, d0⟩ := x
+    unfold setOpt
+    by_cases h0 : k0 = k
+    · subst h0
+      by_cases hk : k' = k0
+      · simp [hk]
+      · have : ¬ k0 = k' := fun h => hk h.symm
+        simp [hk, this]
+    · simp only [h0, if_false, List.find?_cons]
+      by_cases h1 : k0 = k'
+      · subst h1
+        have : ¬ k0 = k := h0
+        simp [this]
+      · simp only [h1, decide_false]
+        exact ih
+
+theorem find?_filter_ne (opts : List (Str × Str)) (k k' : Str) :
+    ((opts.filter fun kd => kd.1 ≠ k).find? fun kd => kd.1 = k').map (·.2) =
+      if k' = k then none else (opts.find? fun kd => kd.1 = k').map (·.2) := by
+  induction opts with
+  | nil => simp
+  | cons x rest ih =>
+    obtain ⟨k0, d0⟩ := x
+    by_cases h0 : k0 = k
+    · subst h0
+      rw [List.filter_cons_of_neg (by simp), ih]
+      by_cases hk : k' = k0
+      · simp [hk]
+      · have : ¬ k0 = k' := fun h => hk h.symm
+        simp [hk, this]
+    · rw [List.filter_cons_of_pos (by simpa using h0)]
+      simp only [List.find?_cons]
+      by_cases h1 : k0 = k'
+      · subst h1
+        simp [h0]
+      · simp only [h1, decide_false]
+        exact ih
+
+theorem mem_keys_setOpt (opts : List (Str × Str)) (k d x : Str)
+    (hx : x ∈ (setOpt opts k d).map (·.1)) : x = k ∨ x ∈ opts.map (·.1) := by
+  induction opts with
+  | nil => simpa [setOpt] using hx
+  | cons y rest ih =>
+    obtain ⟨k0, d0⟩ := y
+    unfold setOpt at hx
+    by_cases h0 : k0 = k
+    · simp only [h0, if_true, List.map_cons, List.mem_cons] at hx ⊢
+      rcases hx with hx | hx
+      · exact Or.inl hx
+      · exact Or.inr (Or.inr hx)
+    · simp only [h0, if_false, List.map_cons, List.mem_cons] at hx ⊢
+      rcases hx with hx | hx
+      · exact Or.inr (Or.inl hx)
+      · rcases ih hx with h | h
+        · exact Or.inl h
+        · exact Or.inr (Or.inr h)
+
+theorem setOpt_keys_nodup (opts : List (Str × Str)) (k d : Str) (h : (opts.map (·.1)).Nodup) :
+    ((setOpt opts k d).map (·.1)).Nodup := by
+  induction opts with
+  | nil => simp [setOpt]
+  | cons y rest ih =>
+    obtain ⟨k0, d0⟩ := y
+    simp only [List.map_cons, List.nodup_cons] at h
+    unfold setOpt
+    by_cases h0 : k0 = k
+    · subst h0
+      simpa using h
+    · simp only [h0, if_false, List.map_cons, List.nodup_cons]
+      refine ⟨?_, ih h.2⟩
+      intro hm
+      rcases mem_keys_setOpt rest k d k0 hm with h1 | h1
+      · exact h0 h1
+      · exact h.1 h1
+
+/-! #### the order on strings -/
+
+theorem strLt_irrefl (a : Str) : strLt a a = false := by
+  induction a with
+  | nil => rfl
+  | cons x xs ih => simp [strLt, ih]
+
+/-- `≥` is transitive -/
+theorem strLt_false_trans : ∀ (a b c : Str), strLt a b = false → strLt b c = false → strLt a c = false
+  | [], [], _, _, h2 => h2
+  | [], _ :: _, _, h1, _ => by simp [strLt] at h1
+  | _ :: _, [], [], _, _ => by simp [strLt]
+  | _ :: _, [], _ :: _, _, h2 => by simp [strLt] at h2
+  | _ :: _, _ :: _, [], _, _ => by simp [strLt]
+  | x :: xs, y :: ys, z :: zs, h1, h2 => by
+    unfold strLt at h1 h2 ⊢
+    by_cases hxy : x.toNat < y.toNat
+    · simp [hxy] at h1
+    · by_cases hyz : y.toNat < z.toNat
+      · simp [hyz] at h2
+      · rw [if_neg hxy] at h1
+        rw [if_neg hyz] at h2
+        have hxz : ¬ x.toNat < z.toNat := by omega
+        rw [if_neg hxz]
+        by_cases hzx : z.toNat < x.toNat
+        · rw [if_pos hzx]
+        · rw [if_neg hzx]
+          have hyx : ¬ y.toNat < x.toNat := by omega
+          have hzy : ¬ z.toNat < y.toNat := by omega
+          rw [if_neg hyx] at h1
+          rw [if_neg hzy] at h2
+          exact strLt_false_trans xs ys zs h1 h2
+
+/-- `<` implies `≤` -/
+theorem strLt_asymm : ∀ (a b : Str), strLt a b = true → strLt b a = false
+  | [], [], h => by simp [strLt] at h
+  | [], _ :: _, _ => by simp [strLt]
+  | _ :: _, [], h => by simp [strLt] at h
+  | x :: xs, y :: ys, h => by
+    unfold strLt at h ⊢
+    by_cases hxy : x.toNat < y.toNat
+    · have : ¬ y.toNat < x.toNat := by omega
+      rw [if_neg this, if_pos hxy]
+    · rw [if_neg hxy] at h
+      by_cases hyx : y.toNat < x.toNat
+      · simp [hyx] at h
+      · rw [if_neg hyx] at h
+        rw [if_neg hyx, if_neg hxy]
+        exact strLt_asymm xs ys h
+
+theorem insertSorted_perm (kd : Str × Str) (l : List (Str × Str)) : (insertSorted kd l).Perm (kd :: l) := by
+  induction l with
+  | nil => exact List.Perm.refl _
+  | cons x xs ih =>
+    unfold insertSorted
+    split
+    · exact List.Perm.refl _
+    · exact (List.Perm.cons x ih).trans (List.Perm.swap kd x xs)
+
+theorem insertSorted_sorted (kd : Str × Str) (l : List (Str × Str))
+    (h : l.Pairwise fun a b => strLt b.1 a.1 = false) :
+    (insertSorted kd l).Pairwise fun a b => strLt b.1 a.1 = false := by
+  induction l with
+  | nil => simp [insertSorted]
+  | cons x xs ih =>
+    rw [List.pairwise_cons] at h
+    unfold insertSorted
+    split
+    · rename_i hlt
+      refine List.Pairwise.cons ?_ (List.Pairwise.cons h.1 h.2)
+      intro y hy
+      rcases List.mem_cons.1 hy with rfl | hy
+      · exact strLt_asymm _ _ hlt
+      · exact strLt_false_trans _ _ _ (h.1 y hy) (strLt_asymm _ _ hlt)
+    · rename_i hlt
+      refine List.Pairwise.cons ?_ (ih h.2)
+      intro y hy
+      rcases List.mem_cons.1 ((insertSorted_perm kd xs).mem_iff.1 hy) with rfl | hy
+      · simpa using hlt
+      · exact h.1 y hy
+
+theorem sortOpts_perm (opts : List (Str × Str)) : (sortOpts opts).Perm opts := by
+  induction opts with
+  | nil => exact List.Perm.refl _
+  | cons x xs ih =>
+    show (insertSorted x (sortOpts xs)).Perm (x :: xs)
+    exact (insertSorted_perm x _).trans (List.Perm.cons x ih)
+
+theorem sortOpts_sorted (opts : List (Str × Str)) :
+    (sortOpts opts).Pairwise fun a b => strLt b.1 a.1 = false := by
+  induction opts with
+  | nil => exact List.Pairwise.nil
+  | cons x xs ih => exact insertSorted_sorted x _ ih
+
+theorem prompt_str_some (m : Str) (hm : m ≠ []) (opts : List (Str × Str)) (ho : opts ≠ []) :
+    ({ message := some m, options := opts } : Prompt).str =
+      m ++ [' '] ++ (['['] ++ joinStr [',', ' '] ((sortOpts opts).map optStr) ++ [']']) ++ [':', ' '] := by
+  cases m with
+  | nil => exact absurd rfl hm
+  | cons c cs => simp [Prompt.str, ho, joinStr]
+
+/-! ### the window -/
+
+theorem overlay_nil_zero (s : List Char) : overlay [] s 0 = s := by
+  simp [overlay, padTo]
+
+/-- drawing at the row just below the buffer, column 0, appends -/
+theorem drawInto_at_end (buf g : Grid) : drawInto buf g buf.length 0 = buf ++ g := by
+  unfold drawInto extendRows
+  apply List.ext_getElem
+  · simp
+  · intro i h1 h2
+    simp only [List.getElem_mapIdx, List.getElem_append]
+    have hsub : buf.length + g.length - buf.length = g.length := by omega
+    by_cases hi : i < buf.length
+    · have : ¬ buf.length ≤ i := by omega
+      simp [hi, this]
+    · have hle : buf.length ≤ i := by omega
+      have hlt : i < buf.length + g.length := by simpa using h2
+      have hg : i - buf.length < g.length := by omega
+      simp [hi, hle, hlt, overlay_nil_zero, hg]
+
+/-- the invariant of a window being filled: the cursor is at the start of the row below the buffer -/
+def WSt.AtEnd (s : WSt) : Prop := s.cur = (s.buf.length, 0)
+
+theorem WSt.draw_atEnd (s : WSt) (g : Grid) (h : s.AtEnd) :
+    (s.draw g false).buf = s.buf ++ g ∧ (s.draw g false).AtEnd := by
+  unfold WSt.AtEnd at h ⊢
+  simp [WSt.draw, WSt.drawAt, h, drawInto_at_end]
+
+theorem WSt.clear_atEnd (s : WSt) : s.clear.AtEnd := rfl
+
+/-- the `for item in self._items` loop appends the lines of every rendered item, in order -/
+theorem renderWindowItems_spec (cc : CharClass) (w : Int) :
+    ∀ (items : List Wd) (st st' : WSt) (items' : List Wd), st.AtEnd →
+      renderWindowItems cc w st items = .ok (st', items') →
+      st'.buf = st.buf ++ items'.flatMap Wd.lines ∧ items'.length = items.length ∧
+        ∀ i, (hi : i < items.length) → (hi' : i < items'.length) →
+          items[i].render cc w = .ok items'[i] := by
+  intro items
+  induction items with
+  | nil =>
+    intro st st' items' _ h
+    rw [renderWindowItems] at h
+    cases h
+    simp
+  | cons it its ih =>
+    intro st st' items' hst h
+    rw [renderWindowItems] at h
+    cases h1 : it.render cc w with
+    | error e => simp [h1, bind, Except.bind] at h
+    | ok it' =>
+      cases h2 : renderWindowItems cc w (st.draw it'.lines false) its with
+      | error e => simp [h1, h2, bind, Except.bind] at h
+      | ok p =>
+        obtain ⟨st2, its'⟩ := p
+        simp only [h1, h2, bind, Except.bind, pure, Except.pure, Except.ok.injEq, Prod.mk.injEq] at h
+        obtain ⟨rfl, rfl⟩ := h
+        obtain ⟨hb, ha⟩ := WSt.draw_atEnd st it'.lines hst
+        obtain ⟨ih1, ih2, ih3⟩ := ih _ _ _ ha h2
+        refine ⟨?_, by simp [ih2], ?_⟩
+        · rw [ih1, hb, List.flatMap_cons, List.append_assoc]
+        · intro i hi hi'
+          cases i with
+          | zero => simpa using h1
+          | succ j =>
+            simp only [List.getElem_cons_succ]
+            exact ih3 j (by simpa using hi) (by simpa using hi')
+
+/-- the title part of a window: the wrapped title and one blank line, when there is a title -/
+def windowTitleLines (cc : CharClass) (title : Option Str) (w : Int) : Except RErr Grid :=
+  match truthy title with
+  | some t => (renderTextSt cc {} t w).map fun s => s.buf ++ [[]]
+  | none => .ok []
+
+theorem window_render_spec (cc : CharClass) (st : WSt) (title : Option Str) (items : List Wd) (w : Int)
+    (r : Wd) (h : (Wd.window st title items).render cc w = .ok r) :
+    ∃ (tl : Grid) (items' : List Wd), windowTitleLines cc title w = .ok tl ∧
+      items'.length = items.length ∧
+      (∀ i, (hi : i < items.length) → (hi' : i < items'.length) →
+        items[i].render cc w = .ok items'[i]) ∧
+      r.lines = tl ++ items'.flatMap Wd.lines := by
+  rw [Wd.render] at h
+  unfold windowTitleLines
+  -- the state after the title part
+  have key : ∀ (st1 : WSt), st1.AtEnd →
+      ((do let __x ← renderWindowItems cc w st1 items
+           match __x with
+           | (st2, items') => pure (Wd.window st2 title items')) : Except RErr Wd) = Except.ok r →
+      ∃ items' : List Wd, items'.length = items.length ∧
+        (∀ i, (hi : i < items.length) → (hi' : i < items'.length) →
+          items[i].render cc w = .ok items'[i]) ∧
+        r.lines = st1.buf ++ items'.flatMap Wd.lines := by
+    intro st1 hst1 hr
+    cases h2 : renderWindowItems cc w st1 items with
+    | error e => simp [h2, bind, Except.bind] at hr
+    | ok p =>
+      obtain ⟨st2, items'⟩ := p
+      simp only [h2, bind, Except.bind, pure, Except.pure, Except.ok.injEq] at hr
+      subst hr
+      obtain ⟨h1, h2, h3⟩ := renderWindowItems_spec cc w items st1 st2 items' hst1 h2
+      exact ⟨items', h2, h3, h1⟩
+  cases ht : truthy title with
+  | some t =>
+    simp only [ht] at h ⊢
+    cases htw : renderTextSt cc {} t w with
+    | error e => simp [htw, bind, Except.bind] at h
+    | ok tw =>
+      simp only [htw, bind, Except.bind, pure, Except.pure] at h
+      obtain ⟨hb1, ha1⟩ := WSt.draw_atEnd st.clear tw.buf (WSt.clear_atEnd st)
+      obtain ⟨hb2, ha2⟩ := WSt.draw_atEnd _ (renderSepSt 1).buf ha1
+      obtain ⟨items', h1, h2, h3⟩ := key _ ha2 h
+      refine ⟨tw.buf ++ [[]], items', rfl, h1, h2, ?_⟩
+      rw [h3, hb2, hb1]
+      simp [WSt.clear, renderSepSt]
+  | none =>
+    simp only [ht, bind, Except.bind, pure, Except.pure] at h ⊢
+    obtain ⟨items', h1, h2, h3⟩ := key _ (WSt.clear_atEnd st) h
+    exact ⟨[], items', rfl, h1, h2, by simpa [WSt.clear] using h3⟩
+
+theorem sep_render_lines (cc : CharClass) (st : WSt) (n : Nat) (w : Int) (r : Wd)
+    (h : (Wd.sep st n).render cc w = .ok r) : r.lines = List.replicate n [] := by
+  rw [Wd.render] at h
+  cases h
+  rfl
 
 end Simpleline
